@@ -7,6 +7,7 @@ import (
 	"os"
 	"path/filepath"
 	"regexp"
+	"sort"
 	"strings"
 	"time"
 
@@ -14,6 +15,7 @@ import (
 	"github.com/lianxiangcloud/linkchain/libs/crypto"
 	"github.com/lianxiangcloud/linkchain/types"
 
+	"verif/sim/kernel"
 	"verif/sim/simdb"
 )
 
@@ -192,4 +194,39 @@ func firstRepoFrame(s string) string {
 		return strings.TrimPrefix(f, "github.com/lianxiangcloud/linkchain/")
 	}
 	return "unknown"
+}
+
+// HostileHang classifies a hung run of the hostile-peer rig from a dump of
+// all goroutine stacks: if goroutines of the code under test sit in a mutex
+// acquisition while the simulator waits for quiescence, a lock was leaked (in
+// the real node: by a handler that panicked inside the connection layer's
+// recover while holding it) and consensus is halted for good — the C16
+// violation "a message from a single peer halted the node". Anything else is
+// left to the watchdog (harness trouble).
+func HostileHang(stacks string) *kernel.Violation {
+	var sites []string
+	for _, g := range strings.Split(stacks, "\n\n") {
+		head := g
+		if i := strings.Index(g, "\n"); i > 0 {
+			head = g[:i]
+		}
+		// a goroutine of the bubble parked in a mutex acquisition (the driver
+		// itself counts: it reads the node's round state under the node's lock)
+		if !strings.Contains(head, "synctest bubble") || !(strings.Contains(head, "[sync.Mutex.Lock") || strings.Contains(head, "[sync.RWMutex")) {
+			continue
+		}
+		for _, f := range frameRe.FindAllString(g, -1) {
+			if strings.Contains(f, "/libs/log") {
+				continue
+			}
+			sites = append(sites, strings.TrimPrefix(f, "github.com/lianxiangcloud/linkchain/"))
+			break
+		}
+	}
+	if len(sites) == 0 {
+		return nil
+	}
+	sort.Strings(sites)
+	return &kernel.Violation{Class: "halted", Key: "C16/halted/lock-never-released/" + sites[0],
+		Message: fmt.Sprintf("after hostile peer traffic %d goroutine(s) of the node wait forever for a mutex nobody will release (first: %s): the consensus routine is halted", len(sites), sites[0])}
 }
